@@ -106,8 +106,18 @@ impl RecRng {
         };
         self.pos += 1;
         self.log.push(w);
+        RECLOG.with(|l| l.borrow_mut().push(w));
         w
     }
+}
+thread_local! {
+    /// Mirror of every word any `RecRng` of this thread handed out (for RNGs owned by a sampler,
+    /// whose own `.log` is not reachable through the public API).
+    static RECLOG: std::cell::RefCell<Vec<u64>> = std::cell::RefCell::new(Vec::new());
+}
+/// Take (and clear) the thread-wide mirror log of `RecRng` draws.
+pub fn reclog_take() -> Vec<u64> {
+    RECLOG.with(|l| std::mem::take(&mut *l.borrow_mut()))
 }
 impl RngCore for RecRng {
     fn next_u32(&mut self) -> u32 {
